@@ -58,6 +58,28 @@ type (
 	}
 )
 
+// Recursive definitions that must be rejected (an unsupported field after the recursive one): the
+// wrappers built on the way must not stay behind in the registry (C08 / C07, finding F07).
+type (
+	BadRecS struct {
+		Kids []BadRecS `plenc:"1"`
+		C    complex64 `plenc:"2"`
+	}
+	BadRecP struct {
+		Next *BadRecP `plenc:"1"`
+		F    chan int `plenc:"2"`
+	}
+	BadRecM struct {
+		M map[string]BadRecM `plenc:"1"`
+		X int                // no plenc tag
+	}
+)
+
+// StaticBad are Go types used by name in "typedef" cases (they cannot be built with reflect.StructOf).
+var StaticBad = map[string]reflect.Type{
+	"BadRecS": reflect.TypeOf(BadRecS{}), "BadRecP": reflect.TypeOf(BadRecP{}), "BadRecM": reflect.TypeOf(BadRecM{}),
+}
+
 // Static is the table of named types by name.
 var Static = map[string]reflect.Type{}
 var staticName = map[reflect.Type]string{}
